@@ -70,6 +70,7 @@ W = {
 }
 
 FUZZ = {
+    "D23-dot": ("D23-program-text-is-a-path", ["C16"], "."),
     "D22-json-backslash": ("D22-json-string-raises", ["C16"],
                            'Task productionTask\n    S\n        In\n            Color\n'
                            '                {"na\\me": "green"}\nEnd\n'),
